@@ -300,20 +300,72 @@ func c18Explore(c *fw.Ctx, layer string, ops []c18Op, depth int) {
 	os.RemoveAll(dir)
 }
 
+// c18Tree replays EVERY history up to the depth without merging states: the merged search above is sound only
+// if the storage object keeps no state besides the directory; the un-merged tree does not rely on that.
+func c18Tree(c *fw.Ctx, layer string, ops []c18Op, depth, part, parts int) {
+	dir := filepath.Join(c.Scratch, "tree-"+layer)
+	idx := 0
+	var rec func(h []c18Op)
+	rec = func(h []c18Op) {
+		if len(h) == depth {
+			idx++
+			if idx%parts == part {
+				c.Eval(1)
+				c.Trace(1)
+				if _, ok := c18Play(c, layer, h, dir); ok {
+					c.Class(layer + ":tree")
+				}
+			}
+			return
+		}
+		for _, op := range ops {
+			if c.Expired() {
+				c.NotExhaustive("deadline")
+				return
+			}
+			rec(append(append([]c18Op{}, h...), op))
+		}
+	}
+	rec(nil)
+	os.RemoveAll(dir)
+}
+
 func c18Run(c *fw.Ctx) {
 	depth := 4
 	if c.Thorough() {
 		depth = 6
 	}
-	if c.Shard == 0 {
+	switch {
+	case c.Shard == 0:
 		c18Explore(c, "storage", c18StorageOps(), depth)
-	}
-	if c.Shard == 1 || c.NShards == 1 {
+	case c.Shard == 1 || c.NShards == 1:
 		d := 2
 		if c.Thorough() {
 			d = 3
 		}
 		c18Explore(c, "db", c18DBOps(), d)
+	default:
+		// shards 2..: the un-merged trees (storage depth 3, thorough 4 on a reduced alphabet; database depth 2)
+		parts := c.NShards - 2
+		var sops []c18Op
+		for _, op := range c18StorageOps() {
+			if op.Op == "set" && (op.Key == "x.entity" || op.Val == 4) || op.Op == "keys" && op.Key != ".entity" || op.Key == "x.entity" {
+				continue // reduced: 2 keys × 4 values, get, delete, one listing, reopen
+			}
+			sops = append(sops, op)
+		}
+		td := 3
+		if c.Thorough() {
+			td = 4
+		}
+		c18Tree(c, "storage", sops, td, c.Shard-2, parts)
+		var dops []c18Op
+		for _, op := range c18DBOps() {
+			if op.Key == "0" || op.Key == "5" || op.Key == "7" || op.Op == "entities" || op.Op == "reopen" {
+				dops = append(dops, op)
+			}
+		}
+		c18Tree(c, "db", dops, td, c.Shard-2, parts)
 	}
 }
 
@@ -321,8 +373,8 @@ func init() {
 	fw.Register(&fw.Check{
 		ID:     "C18",
 		Level:  "model_checking",
-		Rule:   "explicit-state breadth-first search over the real file storage and pairing database: alphabet Set(k,v) for 3 keys × 5 values (lengths 0,1,3,6,4096), Get, Delete, KeysWithSuffix × 3 suffixes, reopen; SaveEntity (3 key lengths) / EntityWithName / DeleteEntity / Entities / reopen for 9 entity names (ASCII, empty, non-ASCII, with slash, with colon, 100 arbitrary bytes, invalid UTF-8 ending in 0xfe and in 0xee, a name ending in '.entity'). State = exact directory content (file names and bytes); every operation is executed in every discovered state by replaying the state's shortest history on a fresh directory; after every step all keys, listings and entities are compared with a Go map. distinct_nontrivial = distinct (layer, operation) classes executed",
-		Shards: func(string) int { return 2 },
+		Rule:   "explicit-state breadth-first search over the real file storage and pairing database: alphabet Set(k,v) for 3 keys × 5 values (lengths 0,1,3,6,4096), Get, Delete, KeysWithSuffix × 3 suffixes, reopen; SaveEntity (3 key lengths) / EntityWithName / DeleteEntity / Entities / reopen for 9 entity names (ASCII, empty, non-ASCII, with slash, with colon, 100 arbitrary bytes, invalid UTF-8 ending in 0xfe and in 0xee, a name ending in '.entity'). State = exact directory content (file names and bytes); every operation is executed in every discovered state by replaying the state's shortest history on a fresh directory; after every step all keys, listings and entities are compared with a Go map. Because that merging is sound only if the storage object holds nothing but the path, EVERY history of length 3 (thorough 4) over a reduced alphabet (2 keys × 4 values, get, delete, listing, reopen; 3 entity names) is additionally replayed without merging. distinct_nontrivial = distinct (layer, operation) classes executed",
+		Shards: func(string) int { return 16 },
 		Run:    c18Run,
 		Replay: func(c *fw.Ctx, raw json.RawMessage) {
 			var cas c18Case
